@@ -22,12 +22,17 @@ EXTENDS Naturals, Sequences, TLC, Json, IOUtils
 Rec == ndJsonDeserialize(IOEnv.TRACE)
 VARIABLES l, m, d, sp, eofs, want, incall
 vars == <<l, m, d, sp, eofs, want, incall>>
-Init == l = 1 /\ m = [hlen |-> 0, plen |-> 0, kind |-> "", iface |-> ""] /\ d = 0 /\ sp = 0 /\ eofs = 0
+Init == l = 1 /\ m = [hlen |-> 0, plen |-> 0, kind |-> "", iface |-> "", pre |-> 0] /\ d = 0 /\ sp = 0 /\ eofs = 0
         /\ want = 0 /\ incall = FALSE
 
-PMsg(e) == /\ ~incall /\ m' = [hlen |-> e.hlen, plen |-> e.plen, kind |-> e.kind, iface |-> e.iface]
+(* pre: octets of the payload taken from the payload object itself, through the other interface, before the message *)
+(* is read as a stream (cprebegin .. cpre); the stream then is header+attributes followed by the REST of the payload *)
+PMsg(e) == /\ ~incall /\ m' = [hlen |-> e.hlen, plen |-> e.plen, kind |-> e.kind, iface |-> e.iface, pre |-> e.pre]
            /\ d' = 0 /\ sp' = 0 /\ eofs' = 0 /\ want' = 0 /\ UNCHANGED incall
 CCall(e) == /\ ~incall /\ incall' = TRUE /\ want' = e.want /\ UNCHANGED <<m, d, sp, eofs>>
+CPreBegin(e) == /\ ~incall /\ d = 0 /\ sp = 0 /\ m.pre > 0 /\ incall' = TRUE /\ want' = e.want /\ UNCHANGED <<m, d, sp, eofs>>
+CPre(e) == /\ incall /\ d = 0 /\ e.ok /\ e.n = m.pre /\ e.n = want       \* exactly the first octets of the payload
+           /\ incall' = FALSE /\ UNCHANGED <<m, d, sp, eofs, want>>
 SRead(e) == /\ incall /\ m.kind \in {"sync", "async"}
             /\ e.pos = sp
             /\ CASE e.r = "got"     -> sp' = sp + e.n /\ sp + e.n <= m.plen
@@ -42,16 +47,18 @@ CRet(e) ==
   /\ CASE e.r = "got" ->
             /\ e.n <= want /\ e.ok
             /\ IF e.n = 0
-               THEN (want = 0 \/ d = m.hlen + m.plen) /\ eofs' = (IF want = 0 THEN eofs ELSE eofs + 1) /\ UNCHANGED d
-               ELSE eofs = 0 /\ d' = d + e.n /\ d + e.n <= m.hlen + m.plen /\ UNCHANGED eofs
+               THEN (want = 0 \/ d = m.hlen + m.plen - m.pre) /\ eofs' = (IF want = 0 THEN eofs ELSE eofs + 1) /\ UNCHANGED d
+               ELSE eofs = 0 /\ d' = d + e.n /\ d + e.n <= m.hlen + m.plen - m.pre /\ UNCHANGED eofs
        [] e.r = "pending" -> m.iface = "async" /\ m.kind = "async" /\ UNCHANGED <<d, eofs>>
        [] e.r = "intr"    -> m.iface = "sync" /\ m.kind = "sync" /\ UNCHANGED <<d, eofs>>
        [] OTHER           -> FALSE
   /\ UNCHANGED <<m, sp, want>>
-CEnd(e) == /\ ~incall /\ d = m.hlen + m.plen /\ eofs >= 2 /\ e.total = d
+CEnd(e) == /\ ~incall /\ d = m.hlen + m.plen - m.pre /\ eofs >= 2 /\ e.total = d
            /\ UNCHANGED <<m, d, sp, eofs, want, incall>>
 Step(e) == CASE e.ev = "pmsg"  -> PMsg(e)
              [] e.ev = "ccall" -> CCall(e)
+             [] e.ev = "cprebegin" -> CPreBegin(e)
+             [] e.ev = "cpre"  -> CPre(e)
              [] e.ev = "read"  -> SRead(e)
              [] e.ev = "wake"  -> SWake(e)
              [] e.ev = "cret"  -> CRet(e)
